@@ -481,7 +481,7 @@ def p_peers_from_features(host: str, tcp_port: J0, ssl_port: J0, extra_key: str,
     peers = Peer.peers_from_features(features, 'src')
     for p in peers:
         for port in (p.tcp_port, p.ssl_port):
-            if port is not None and not (isinstance(port, int) and 0 < port < 65536):
+            if port is not None and not (isinstance(port, int) and not isinstance(port, bool) and 0 < port < 65536):
                 return False
         if p.is_public:
             try:
